@@ -140,7 +140,7 @@ def scheds(mode):
             "fresh-src": (CurrentThreadScheduler(), None)}[mode]
 
 
-def run_impl(kind, mode, shape, n, timeout=10.0):
+def run_impl(kind, mode, shape, n, timeout=2.0):
     """-> dict(outcome 'returned'|'exceeded'|'timeout', pulls, out, done, later_pulls, idle, error)"""
     import reactivex as rx
     from reactivex.scheduler import CurrentThreadScheduler
